@@ -460,10 +460,13 @@ class schur_pressure_correction {
                         }
                     }
 
-                    (*L)[i] = s;
+                    // The correction is only applied (and later undone in spmv())
+                    // when the diagonal entry is actually stored in Kpp.
+                    (*L)[i] = math::zero<value_type>();
                     for(ptrdiff_t j = Kpp->ptr[i], e = Kpp->ptr[i+1]; j < e; ++j) {
                         if (Kpp->col[j] == i) {
                             Kpp->val[j] -= s;
+                            (*L)[i] = s;
                             break;
                         }
                     }
